@@ -140,6 +140,25 @@ impl<K, V> SmallMap<K, V> {
         }
     }
 
+    /// Verification hook: the entry indices stored in the hash index, sorted, each with a flag
+    /// telling whether it is found under the hash stored next to that entry; `None` when no
+    /// index is allocated.
+    #[cfg(starlark_verif)]
+    pub fn verif_index_snapshot(&self) -> Option<Vec<(usize, bool)>> {
+        self.index.as_ref().map(|index| {
+            let mut r: Vec<(usize, bool)> = Vec::new();
+            for i in index.iter() {
+                let found = match self.entries.iter_hashed().nth(*i) {
+                    Some((k, _)) => index.find(k.hash().promote(), |j| *j == *i).is_some(),
+                    None => false,
+                };
+                r.push((*i, found));
+            }
+            r.sort();
+            r
+        })
+    }
+
     /// Drop the index if the map is too small, and the index is not really needed.
     ///
     /// We don't allocate index prematurely when we add entries the map,
